@@ -31,6 +31,11 @@ CHECKS = {
             "Generated-input search: allocation-heavy random histories on volumes with 3..40 free clusters of every width (FAT32 with known / unknown / dirty-ignored FS-info count) plus scripted fill-to-full/delete-all cycles (6 quick, 200 thorough).",
             "trusted: refdec's FAT decoding and slot-run predictor, proptest; a count stored on a volume that was already dirty at mount and never recomputed by stats() is nobody's claim",
             "DESIGN.md 5 C05"),
+    "C09": ("fault_enumeration",
+            "exhaustive single-fault injection: every device-call position of each representative operation fails once with a tagged error on an instrumented device; oracle = the public call in progress returns Error::Io with that tag, within a device-call budget; random scripts enumerated the same way",
+            "Fault enumeration: for each volume (FAT12/16/32, FAT32 with unknown FS-info count) x 26 representative operations, every k-th device call (read, write, seek, flush) of the operation fails once; sequences longer than the tier's cap (free-cluster recounts: two device calls per table entry) are enumerated at their first/last third of the cap and on a stride (evidence says which). Destructor-issued calls are exempt through the drop-depth hook.",
+            "trusted: the instrumented device, the verif_drop_depth hook (guarded, add-only), single faults only",
+            "DESIGN.md 5 C09"),
     "C10": ("exploration",
             "invariant checking over generated histories on imggen-built volumes: byte comparison of all FAT copies, reserved entries, padding entries and FAT32 high nibbles against the mount-time image after every call",
             "Generated-input search: random allocating/freeing histories on volumes with 1/2/3 FAT copies, mirroring on or off with each active copy (garbage in inactive ones), non-zero FAT32 reserved nibbles, garbage padding entries.",
